@@ -240,9 +240,40 @@ def leaves(body, op, depth=0):
             continue
         elif r.kind == "const":
             out.add(("c", str(r.what)))
+        elif r.kind == "call" and r.obj is not None and len(r.obj.get("args", [])) == 2 and str(r.what).endswith("::index") and body.op_ty(r.obj["args"][1]).endswith("RangeFull"):
+            # `x[..]` is x
+            out |= leaves(body, r.obj["args"][0], depth + 1)
+        elif r.kind == "call" and _FACTS[0] is not None and str(r.what) in _FACTS[0].bodies and r.obj is not None and r.obj.get("args") and _accessor_fields(str(r.what)) is not None:
+            # a pure accessor (`fn path(&self) -> &T { &self.key_path[..] }`): the value is that field of the receiver
+            extra = _accessor_fields(str(r.what))
+            for (k, key) in leaves(body, r.obj["args"][0], depth + 1):
+                if k == "c":
+                    continue
+                for (k2, f2) in extra:
+                    kk = (key[0], key[1], key[2], tuple(key[3]) + tuple(f2) + tuple(r.fields))
+                    out.add((k2 if k == "v" else k, kk))
         else:
             out.add(("v", (r.kind, r.bb if r.kind != "param" else -1, str(r.what), r.fields)))
     return out
+
+
+_FACTS = [None]
+_ACC = {}
+
+
+def _accessor_fields(fn):
+    """[(leaf kind, field path)] when every leaf of fn's return value is (a length of) a field path of its first parameter"""
+    if fn in _ACC:
+        return _ACC[fn]
+    _ACC[fn] = None  # recursion guard
+    cal = _FACTS[0].bodies[fn]
+    res = None
+    if cal.crate == "nomt_core" and cal.kind != "Closure" and cal.argc >= 1 and cal.n <= 12:
+        ls = leaves(cal, {"k": "copy", "pl": {"l": 0}}, 3)
+        if ls and all(k in ("v", "len") and key[0] == "param" and key[2] == "1" and key[3] for (k, key) in ls):
+            res = sorted({(k, tuple(key[3])) for (k, key) in ls})
+    _ACC[fn] = res
+    return res
 
 
 def guard_comparisons(body, variant):
@@ -433,6 +464,8 @@ def load_sigs():
 
 
 def run(facts, rep, cfg="default"):
+    _FACTS[0] = facts
+    _ACC.clear()
     reach, inv = inventory(facts)
     disp = PS.SITES
     seen_keys = set()
